@@ -117,6 +117,28 @@ def run(ctx):
     ctx.correspond([f"bf2.import 1 {hx(t.encode())}" for t, _ in fam] + [f"bf2.import 1 {t}" for _, t in edge], "bf2.import-families")
     ctx.check_props([f"prop.c13 {hx(t.encode())} {spec_of(e)}" for t, e in fam], "prop.c13-families")
     ctx.check_props([f"prop.c13reject {t} continuation-line-of-unknown-tag-type-{typ:02x}" for typ, t in edge], "prop.c13reject-continuation")
+    # a section that consists of continuation pages only (its data begins at 64 KiB or beyond) right behind an ignored prepare /
+    # activate section, in front of an ordinary one: to be rejected like anywhere else, not swallowed by the ignored data (D16)
+    orphan = []
+    for ign in gb2.IGNORED:
+        for base, page in ((0x35, 1), (0x35, 3), (0x39, 2), (0x3D, 1), (0x40, 5), (0x70, 2), (0x84, 7)):
+            w = gb2.Writer()
+            w.text("##Firmware: 1100 ID-ENGINE 1.02.03 generated")
+            w.text("##Bf3Update: 1")
+            w.text("#>CHECK_FWVER VERSIONDESC=*")
+            w.data(ign, g.rbytes(rng, 8), [8])
+            w.text("#>CHECK_FWVER VERSIONDESC=*")
+            w.text("#>SELECT_IF PROTOCOL=*")
+            w.data(base, g.rbytes(rng, rng.choice([1, 30, 300])), [rng.choice([1, 16, 250])], start=page * gb2.PAGE + rng.choice([0, 7]))
+            w.text("##CRC: 0x11223344")
+            w.text("#>REBOOT")
+            w.text("#>CHECK_FWVER VERSIONDESC=*")
+            w.text("#>SELECT_IF PROTOCOL=*")
+            w.data(0x3D, g.rbytes(rng, 12), [12])
+            w.text("#>REBOOT")
+            orphan.append(hx(w.value().encode()))
+    ctx.correspond([f"bf2.import 1 {t}" for t in orphan], "bf2.import-orphan-pages")
+    ctx.check_props([f"prop.c13reject {t} section-of-continuation-pages-behind-an-ignored-section" for t in orphan], "prop.c13reject-orphan")
     # platform filters
     fl = []
     if ctx.quick:
